@@ -1,4 +1,5 @@
 #include "public/module/thpool/thpool.h"
+#include <sched.h>
 #include "poll.h"
 #include "evts.h"
 
@@ -114,6 +115,8 @@ static void *task_thread(void *data) {
     M_MOD_CTX(src->mod);
     src->task_src.retval = src->task_src.tid.fn((void *)src->userptr);
     poll_notify_userevent(&c->ppriv, src);
+    /* Our last access to the source: whoever drops it waits for this (see wait_task()) */
+    atomic_store(&src->task_src.state, TASK_DONE);
     return NULL;
 }
 
@@ -491,7 +494,22 @@ int start_task(m_ctx_t *c, ev_src_t *src) {
         c->thpool = m_thpool_new(M_TASK_MAX_THREADS, M_THPOOL_LAZY);
     }
     M_ALLOC_ASSERT(c->thpool);
-    return m_thpool_add(c->thpool, task_thread, src);
+    atomic_store(&src->task_src.state, TASK_RUNNING);
+    int ret = m_thpool_add(c->thpool, task_thread, src);
+    if (ret != 0) {
+        atomic_store(&src->task_src.state, TASK_IDLE);
+    }
+    return ret;
+}
+
+/*
+ * A task source cannot be dropped (its memory freed, its notification fd closed)
+ * under the thread that is running its task: wait for that thread to be done with it.
+ */
+void wait_task(ev_src_t *src) {
+    while (atomic_load(&src->task_src.state) == TASK_RUNNING) {
+        sched_yield();
+    }
 }
 
 /** Public API **/
